@@ -633,3 +633,506 @@ Proof.
   - split; [exact I|]. intro p. cbn [pmem]. rewrite <- Heq. reflexivity.
   - split; [cbn [pvalid]; apply canonp_valid; exact C|]. intro p. cbn [pmem]. apply Heq.
 Qed.
+
+(* ================================================================ D. Resources.Satisfy *)
+
+Lemma in1_within p a b : within a b = true -> in1 p a = true -> in1 p b = true.
+Proof. unfold within, in1. bool_arith. Qed.
+
+(* Compare = "subset" really means: every port of x is a port of y *)
+Lemma rcompare_subset x y :
+  Forall rvalid x -> Forall rvalid y -> rcompare x y = 1 ->
+  forall p, inr p x = true -> inr p y = true.
+Proof.
+  intros Hx Hy H p Hp. unfold rcompare in H.
+  destruct (ranges_eqb (renorm x) (renorm y)); [discriminate|].
+  destruct (forallb (fun a => existsb (within a) (renorm y)) (renorm x)) eqn:F; [|discriminate].
+  rewrite <- (proj2 (renorm_spec x Hx)) in Hp. rewrite <- (proj2 (renorm_spec y Hy)).
+  unfold inr in *. apply existsb_exists in Hp. destruct Hp as [a [Ha Hpa]].
+  rewrite forallb_forall in F. specialize (F a Ha). apply existsb_exists in F.
+  destruct F as [b [Hb Hab]]. apply existsb_exists. exists b. split; [exact Hb|].
+  apply (in1_within p a b Hab Hpa).
+Qed.
+
+Lemma mul_div_le_1000 m : (m / 1000) * 1000 <= m.
+Proof. rewrite N.mul_comm. apply N.mul_div_le. discriminate. Qed.
+
+(* what a positive answer of Resources.Satisfy guarantees *)
+Lemma res_satisfy_sound cpu mem pr wc wm static n :
+  pvalid pr -> res_satisfy cpu mem pr wc wm static n = true ->
+  (exists c, cpu = Some c /\ wc <= c) /\
+  (exists m, mem = Some m /\ wm <= m) /\
+  (exists av, ports_of pr = Some av /\ n <= rsize av - rsize (canon static)) /\
+  (Forall rvalid static -> forall p, inr p static = true -> pmem p pr = true).
+Proof.
+  intros Hv H. unfold res_satisfy in H.
+  destruct cpu as [c|]; [|discriminate].
+  destruct (c <? wc) eqn:Ec; [discriminate|]. apply N.ltb_ge in Ec.
+  destruct mem as [m|]; [|discriminate].
+  destruct ((m / 1000) * 1000 <? wm) eqn:Em; [discriminate|]. apply N.ltb_ge in Em.
+  destruct (ports_of pr) as [av|] eqn:Ep; [|discriminate].
+  destruct (negb (N.eqb (rcompare (canon static) av) 1)) eqn:Er; [discriminate|].
+  apply negb_false_iff in Er. apply N.eqb_eq in Er.
+  destruct (rsize av - rsize (canon static) <? n) eqn:En; [discriminate|]. apply N.ltb_ge in En.
+  destruct (ports_of_spec pr av Hv Ep) as [Cav Mav].
+  split; [exists c; split; [reflexivity|exact Ec]|].
+  split; [exists m; split; [reflexivity|]|].
+  { pose proof (mul_div_le_1000 m). lia. }
+  split; [exists av; split; [reflexivity|exact En]|].
+  intros Hs p Hp. destruct (canon_spec static Hs) as [Cs Ms].
+  rewrite <- Mav. apply (rcompare_subset (canon static) av).
+  - apply canonp_valid. exact Cs.
+  - apply canonp_valid. exact Cav.
+  - exact Er.
+  - rewrite Ms. exact Hp.
+Qed.
+
+(* ================================================================ E. makeTaskForMesosResources *)
+
+Definition picked (t : task) : list N := map snd (t_dyn t) ++ [t_ctl t].
+Definition all_picked (ts : list task) : list N := flat_map picked ts.
+
+Lemma memN_In p l : memN p l = true <-> In p l.
+Proof.
+  unfold memN. rewrite existsb_exists. split.
+  - intros [x [Hx E]]. apply N.eqb_eq in E. subst. exact Hx.
+  - intro H. exists p. split; [exact H|apply N.eqb_refl].
+Qed.
+
+Lemma memN_cons p q l : memN p (q :: l) = N.eqb p q || memN p l.
+Proof. reflexivity. Qed.
+
+Lemma memN_app p l1 l2 : memN p (l1 ++ l2) = memN p l1 || memN p l2.
+Proof. unfold memN. apply existsb_app. Qed.
+
+Lemma pmem_none p : pmem p None = false.
+Proof. reflexivity. Qed.
+
+Lemma alloc_dyn_spec : forall chans pr pr' dyn,
+  pvalid pr -> alloc_dyn chans pr = AOk pr' dyn ->
+  pvalid pr' /\
+  (forall p, pmem p pr' = pmem p pr && negb (memN p (map snd dyn))) /\
+  NoDup (map snd dyn) /\
+  (forall p, In p (map snd dyn) -> pmem p pr = true /\ data_port_floor < p) /\
+  map fst dyn = map ch_name (filter ch_tcp chans).
+Proof.
+  induction chans as [|c r IH]; intros pr pr' dyn Hv H; cbn [alloc_dyn] in H.
+  - inversion H; subst. cbn. split; [exact Hv|]. split; [intro p; rewrite andb_true_r; reflexivity|].
+    split; [constructor|]. split; [intros p []|reflexivity].
+  - cbn [filter]. destruct (ch_tcp c) eqn:Et.
+    + destruct (ports_of pr) as [av|] eqn:Ep; [|discriminate].
+      destruct (rmin (rremove av 0 data_port_floor)) as [q|] eqn:Eq; [|discriminate].
+      destruct (alloc_dyn r (subtract_port pr q)) as [pr2 dyn2| |] eqn:Ea; try discriminate.
+      inversion H; subst pr' dyn. clear H.
+      destruct (ports_of_spec pr av Hv Ep) as [Cav Mav].
+      destruct (rremove_spec av 0 data_port_floor (N.le_0_l _) Cav) as [Cr Mr].
+      pose proof (rmin_in _ _ Cr Eq) as Hq. rewrite Mr in Hq.
+      apply andb_true_iff in Hq. destruct Hq as [Hq1 Hq2]. rewrite Mav in Hq1.
+      assert (Hqf : data_port_floor < q).
+      { revert Hq2. bool_arith. }
+      destruct (subtract_port_spec pr q Hv) as [Vs Ms].
+      destruct (IH _ _ _ Vs Ea) as [V2 [M2 [N2 [I2 F2]]]].
+      split; [exact V2|]. cbn [map fst snd].
+      split.
+      { intro p. rewrite M2, Ms, memN_cons, negb_orb, !andb_assoc. reflexivity. }
+      split.
+      { constructor; [|exact N2]. intro Hin. destruct (I2 q Hin) as [X _].
+        rewrite Ms, N.eqb_refl in X. cbn in X. rewrite andb_false_r in X. discriminate. }
+      split.
+      { intros p [Hp|Hp]; [subst p; split; assumption|].
+        destruct (I2 p Hp) as [X Y]. rewrite Ms in X. apply andb_true_iff in X.
+        split; [apply X|exact Y]. }
+      f_equal. exact F2.
+    + apply (IH _ _ _ Hv H).
+Qed.
+
+Lemma inr_spans p l : inr p (map span1 l) = memN p l.
+Proof.
+  induction l as [|q r IH]; [reflexivity|].
+  cbn [map]. rewrite inr_cons, memN_cons, IH. f_equal. unfold in1, span1. cbn [fst snd]. bool_arith.
+Qed.
+
+Lemma spans_valid l : Forall rvalid (map span1 l).
+Proof. induction l; constructor; [apply N.le_refl|assumption]. Qed.
+
+(* everything a successfully built task guarantees, relative to the ports that were still free *)
+Definition built (exec : N * N) (o : offer) (d : desc) (k : klass) (chans : list chan)
+           (pr pr' : portres) (t : task) : Prop :=
+  pvalid pr' /\
+  (forall p, pmem p pr' = pmem p pr && negb (memN p (picked t))) /\
+  NoDup (picked t) /\
+  (forall p, In p (picked t) -> pmem p pr = true) /\
+  (forall p, In p (map snd (t_dyn t)) -> data_port_floor < p) /\
+  control_port_floor < t_ctl t.
+
+Definition shaped (exec : N * N) (o : offer) (d : desc) (k : klass) (chans : list chan) (t : task) : Prop :=
+  t_desc t = d /\
+  map fst (t_dyn t) = map ch_name (filter ch_tcp chans) /\
+  t_handed t = (if k_controllable k then Some (t_ctl t) else None) /\
+  t_req t = canon (k_static k ++ map span1 (picked t)) /\
+  t_cpu t = k_cpu k + fst exec /\ t_mem t = k_mem k + snd exec /\
+  t_reuse t = (0 <? o_execs o).
+
+Lemma alloc_dyn_names : forall chans pr pr' dyn,
+  alloc_dyn chans pr = AOk pr' dyn -> map fst dyn = map ch_name (filter ch_tcp chans).
+Proof.
+  induction chans as [|c r IH]; intros pr pr' dyn H; cbn [alloc_dyn] in H.
+  - inversion H; subst. reflexivity.
+  - cbn [filter]. destruct (ch_tcp c) eqn:Et.
+    + destruct (ports_of pr) as [av|] eqn:Ep; [|discriminate].
+      destruct (rmin (rremove av 0 data_port_floor)) as [q|] eqn:Eq; [|discriminate].
+      destruct (alloc_dyn r (subtract_port pr q)) as [pr2 dyn2| |] eqn:Ea; try discriminate.
+      inversion H; subst pr' dyn. cbn [map fst]. f_equal. apply (IH _ _ _ Ea).
+    + apply (IH _ _ _ H).
+Qed.
+
+Lemma make_task_shape exec o d k chans pr pr' t :
+  make_task exec o d k chans pr = MkOk pr' t -> shaped exec o d k chans t /\
+  exists pr1, alloc_dyn chans pr = AOk pr1 (t_dyn t) /\
+    exists av, ports_of pr1 = Some av /\ rmin (rremove av 0 control_port_floor) = Some (t_ctl t) /\
+    pr' = subtract_port pr1 (t_ctl t).
+Proof.
+  unfold make_task. intro H.
+  destruct (alloc_dyn chans pr) as [pr1 dyn| |] eqn:Ea; try discriminate.
+  destruct (ports_of pr1) as [av|] eqn:Ep; [|discriminate].
+  destruct (rmin (rremove av 0 control_port_floor)) as [cp|] eqn:Ec; [|discriminate].
+  inversion H; subst pr' t. clear H.
+  split.
+  - unfold shaped, picked. cbn [t_dyn t_ctl t_desc t_handed t_req t_cpu t_mem t_reuse].
+    split; [reflexivity|]. split; [apply (alloc_dyn_names _ _ _ _ Ea)|].
+    split; [reflexivity|]. split; [rewrite map_app, map_map; reflexivity|].
+    repeat split; reflexivity.
+  - cbn [t_dyn t_ctl]. exists pr1. split; [reflexivity|]. exists av. repeat split; assumption.
+Qed.
+
+Lemma make_task_built exec o d k chans pr pr' t :
+  pvalid pr -> make_task exec o d k chans pr = MkOk pr' t -> built exec o d k chans pr pr' t.
+Proof.
+  intros Hv H. destruct (make_task_shape _ _ _ _ _ _ _ _ H) as [_ [pr1 [Ea [av [Ep [Ec Epr]]]]]].
+  destruct (alloc_dyn_spec _ _ _ _ Hv Ea) as [V1 [M1 [N1 [I1 _]]]].
+  destruct (ports_of_spec pr1 av V1 Ep) as [Cav Mav].
+  destruct (rremove_spec av 0 control_port_floor (N.le_0_l _) Cav) as [Cr Mr].
+  pose proof (rmin_in _ _ Cr Ec) as Hq. rewrite Mr in Hq.
+  apply andb_true_iff in Hq. destruct Hq as [Hq1 Hq2]. rewrite Mav in Hq1.
+  assert (Hqf : control_port_floor < t_ctl t).
+  { revert Hq2. bool_arith. }
+  destruct (subtract_port_spec pr1 (t_ctl t) V1) as [Vs Ms]. subst pr'.
+  unfold built, picked.
+  split; [exact Vs|]. split.
+  { intro p. rewrite Ms, M1, memN_app, memN_cons, negb_orb. cbn [memN existsb].
+    rewrite orb_false_r, !andb_assoc. reflexivity. }
+  split.
+  { apply NoDup_snoc; [exact N1|]. intro Hin. rewrite M1 in Hq1.
+    apply andb_true_iff in Hq1. destruct Hq1 as [_ X]. apply negb_true_iff in X.
+    apply memN_In in Hin. congruence. }
+  split.
+  { intros p Hp. apply in_app_or in Hp. destruct Hp as [Hp|[Hp|[]]].
+    - apply (I1 p Hp).
+    - subst p. rewrite M1 in Hq1. apply andb_true_iff in Hq1. apply Hq1. }
+  split; [intros p Hp; apply (I1 p Hp)|exact Hqf].
+Qed.
+
+Lemma make_task_abandon exec o d k chans pr pr' :
+  make_task exec o d k chans pr = MkEarly pr' \/ make_task exec o d k chans pr = MkLate pr' -> pr' = None.
+Proof.
+  unfold make_task.
+  destruct (alloc_dyn chans pr) as [pr1 dyn| |]; [|intros [H|H]; inversion H; reflexivity|intros [H|H]; discriminate].
+  destruct (ports_of pr1) as [av|]; [|intros [H|H]; inversion H; reflexivity].
+  destruct (rmin (rremove av 0 control_port_floor)); intros [H|H]; discriminate.
+Qed.
+
+(* the requested ports of a task are exactly its static ranges, its dynamic ports and the
+   control port *)
+Lemma shaped_req exec o d k chans t :
+  shaped exec o d k chans t -> Forall rvalid (k_static k) ->
+  forall p, inr p (t_req t) = inr p (k_static k) || memN p (picked t).
+Proof.
+  intros [_ [_ [_ [Hr _]]]] Hs p. rewrite Hr.
+  assert (Hv : Forall rvalid (k_static k ++ map span1 (picked t))).
+  { apply Forall_app. split; [exact Hs|apply spans_valid]. }
+  rewrite (proj2 (canon_spec _ Hv)), inr_app, inr_spans. reflexivity.
+Qed.
+
+(* ================================================================ F. the offer loops *)
+
+(* what holds for a launched task whatever the port ranges look like *)
+Definition task_base (exec : N * N) (o : offer) (t : task) : Prop :=
+  satisfy (o_attrs o) (d_constraints (t_desc t)) = true /\
+  exists k, d_class (t_desc t) = Some k /\
+    (exists c, o_cpu o = Some c /\ k_cpu k <= c) /\
+    (exists m, o_mem o = Some m /\ k_mem k <= m) /\
+    shaped exec o (t_desc t) k (merge_inbound (d_rbind (t_desc t)) (k_bind k)) t.
+
+(* what holds in addition when the offer's port ranges are well formed (begin <= end) *)
+Definition task_ports (o : offer) (t : task) : Prop :=
+  (forall p, In p (picked t) -> pmem p (o_ports o) = true) /\
+  (forall p, In p (map snd (t_dyn t)) -> data_port_floor < p) /\
+  control_port_floor < t_ctl t /\
+  (forall k, d_class (t_desc t) = Some k -> Forall rvalid (k_static k) ->
+     forall p, inr p (k_static k) = true -> pmem p (o_ports o) = true).
+
+Record ports_inv (o : offer) (st : ost) : Prop := mkPI {
+  pi_valid : pvalid (s_rem st);
+  pi_sub : forall p, pmem p (s_rem st) = true -> pmem p (o_ports o) = true;
+  pi_fresh : forall p, In p (all_picked (s_tasks st)) -> pmem p (s_rem st) = false;
+  pi_nodup : NoDup (all_picked (s_tasks st));
+  pi_tasks : Forall (task_ports o) (s_tasks st)
+}.
+
+Record inv (exec : N * N) (o : offer) (st : ost) : Prop := mkInv {
+  inv_base : Forall (task_base exec o) (s_tasks st);
+  inv_undecl : s_undecl st = true -> s_tasks st <> [] \/ s_aband st = true;
+  inv_tasks_undecl : s_tasks st <> [] -> s_undecl st = true;
+  inv_ports : pvalid (o_ports o) -> ports_inv o st
+}.
+
+Lemma inv_init exec o : inv exec o (mkOst (o_ports o) [] false false).
+Proof.
+  constructor; cbn.
+  - constructor.
+  - discriminate.
+  - congruence.
+  - intro Hv. constructor; cbn.
+    + exact Hv.
+    + auto.
+    + intros p [].
+    + constructor.
+    + constructor.
+Qed.
+
+Lemma try_desc_mk exec o pr d r :
+  try_desc exec o pr d = TMk r ->
+  satisfy (o_attrs o) (d_constraints d) = true /\
+  exists k, d_class d = Some k /\
+    res_satisfy (o_cpu o) (o_mem o) pr (k_cpu k) (k_mem k) (k_static k)
+                (Nlen (merge_inbound (d_rbind d) (k_bind k))) = true /\
+    r = make_task exec o d k (merge_inbound (d_rbind d) (k_bind k)) pr.
+Proof.
+  unfold try_desc. destruct (satisfy (o_attrs o) (d_constraints d)); cbn [negb]; [|discriminate].
+  destruct (d_class d) as [k|]; [|discriminate].
+  destruct (res_satisfy (o_cpu o) (o_mem o) pr (k_cpu k) (k_mem k) (k_static k)
+                        (Nlen (merge_inbound (d_rbind d) (k_bind k)))) eqn:E; cbn [negb]; [|discriminate].
+  intro H. inversion H. split; [reflexivity|]. exists k. auto.
+Qed.
+
+Lemma all_picked_snoc ts t : all_picked (ts ++ [t]) = all_picked ts ++ picked t.
+Proof. unfold all_picked. rewrite flat_map_app. cbn. rewrite app_nil_r. reflexivity. Qed.
+
+Lemma NoDup_app_intro {A} (l1 l2 : list A) :
+  NoDup l1 -> NoDup l2 -> (forall x, In x l1 -> ~ In x l2) -> NoDup (l1 ++ l2).
+Proof.
+  induction l1 as [|a l1 IH]; intros H1 H2 Hd; [exact H2|].
+  inversion H1 as [|x xs Ha Hl]; subst. cbn. constructor.
+  - intro Hin. apply in_app_or in Hin. destruct Hin as [Hin|Hin]; [contradiction|].
+    apply (Hd a (or_introl eq_refl) Hin).
+  - apply IH; [exact Hl|exact H2|]. intros x Hx. apply Hd. right. exact Hx.
+Qed.
+
+(* a task was built and appended *)
+Lemma inv_step_ok exec o st d pr t :
+  inv exec o st -> try_desc exec o (s_rem st) d = TMk (MkOk pr t) ->
+  inv exec o (mkOst pr (s_tasks st ++ [t]) true (s_aband st)).
+Proof.
+  intros [Hb Hu Htu Hp] Ht.
+  destruct (try_desc_mk _ _ _ _ _ Ht) as [Hsat [k [Hk [Hres Hmk]]]]. symmetry in Hmk.
+  destruct (make_task_shape _ _ _ _ _ _ _ _ Hmk) as [Hsh _].
+  assert (Hd : t_desc t = d) by apply Hsh.
+  constructor; cbn [s_rem s_tasks s_undecl s_aband].
+  - apply Forall_app. split; [exact Hb|]. constructor; [|constructor].
+    unfold task_base. rewrite Hd. split; [exact Hsat|]. exists k. split; [exact Hk|].
+    unfold res_satisfy in Hres.
+    destruct (o_cpu o) as [c|]; [|discriminate].
+    destruct (c <? k_cpu k) eqn:Ec; [discriminate|]. apply N.ltb_ge in Ec.
+    destruct (o_mem o) as [m|]; [|discriminate].
+    destruct ((m / 1000) * 1000 <? k_mem k) eqn:Em; [discriminate|]. apply N.ltb_ge in Em.
+    split; [exists c; split; [reflexivity|exact Ec]|].
+    split; [exists m; split; [reflexivity|pose proof (mul_div_le_1000 m); lia]|].
+    exact Hsh.
+  - intros _. left. destruct (s_tasks st); discriminate.
+  - reflexivity.
+  - intro Hv. destruct (Hp Hv) as [Pv Ps Pf Pn Pt].
+    destruct (make_task_built _ _ _ _ _ _ _ _ Pv Hmk) as [Bv [Bm [Bn [Bi [Bd Bc]]]]].
+    destruct (res_satisfy_sound _ _ _ _ _ _ _ Pv Hres) as [_ [_ [_ Hst]]].
+    constructor; cbn [s_rem s_tasks].
+    + exact Bv.
+    + intros p H. rewrite Bm in H. apply andb_true_iff in H. apply Ps. apply H.
+    + intros p H. rewrite all_picked_snoc in H. rewrite Bm. apply in_app_or in H.
+      destruct H as [H|H].
+      * rewrite (Pf p H). reflexivity.
+      * apply memN_In in H. rewrite H. apply andb_false_r.
+    + rewrite all_picked_snoc. apply NoDup_app_intro; [exact Pn|exact Bn|].
+      intros p H1 H2. pose proof (Pf p H1) as X. pose proof (Bi p H2) as Y. congruence.
+    + apply Forall_app. split; [exact Pt|]. constructor; [|constructor].
+      unfold task_ports. split; [intros p H; apply Ps, Bi, H|]. split; [exact Bd|].
+      split; [exact Bc|]. rewrite Hd. intros k' Hk' Hs p H.
+      rewrite Hk in Hk'. inversion Hk'; subst k'. apply Ps. apply (Hst Hs p H).
+Qed.
+
+(* the ports resource is gone; the task list is unchanged *)
+Lemma inv_step_none exec o st u a :
+  inv exec o st -> (u = true -> s_tasks st <> [] \/ a = true) -> (s_tasks st <> [] -> u = true) ->
+  inv exec o (mkOst None (s_tasks st) u a).
+Proof.
+  intros [Hb Hu Htu Hp] H1 H2. constructor; cbn [s_rem s_tasks s_undecl s_aband]; try assumption.
+  intro Hv. destruct (Hp Hv) as [Pv Ps Pf Pn Pt]. constructor; cbn [s_rem s_tasks]; try assumption.
+  - exact I.
+  - intros p H. discriminate.
+  - reflexivity.
+Qed.
+
+Lemma inv_step_early exec o st d pr :
+  inv exec o st -> try_desc exec o (s_rem st) d = TMk (MkEarly pr) ->
+  inv exec o (mkOst pr (s_tasks st) (s_undecl st) (s_aband st)).
+Proof.
+  intros Hi Ht. destruct (try_desc_mk _ _ _ _ _ Ht) as [_ [k [_ [_ Hmk]]]].
+  assert (pr = None) by (eapply make_task_abandon; left; symmetry; exact Hmk). subst pr.
+  apply inv_step_none; [exact Hi|apply Hi|apply Hi].
+Qed.
+
+Lemma inv_step_late exec o st d pr :
+  inv exec o st -> try_desc exec o (s_rem st) d = TMk (MkLate pr) ->
+  inv exec o (mkOst pr (s_tasks st) true true).
+Proof.
+  intros Hi Ht. destruct (try_desc_mk _ _ _ _ _ Ht) as [_ [k [_ [_ Hmk]]]].
+  assert (pr = None) by (eapply make_task_abandon; right; symmetry; exact Hmk). subst pr.
+  apply inv_step_none; [exact Hi|intros _; right; reflexivity|reflexivity].
+Qed.
+
+Lemma prematch_loop_inv exec o : forall pm st st' und p,
+  inv exec o st -> prematch_loop exec o pm st = (st', und, p) -> inv exec o st'.
+Proof.
+  induction pm as [|d r IH]; intros st st' und p Hi H; cbn [prematch_loop] in H.
+  - inversion H; subst. exact Hi.
+  - destruct (try_desc exec o (s_rem st) d) as [| | |[pr t|pr|pr|]] eqn:Et;
+      try (inversion H; subst; exact Hi).
+    + apply (IH _ _ _ _ (inv_step_ok _ _ _ _ _ _ Hi Et) H).
+    + inversion H; subst. apply (inv_step_early _ _ _ _ _ Hi Et).
+    + inversion H; subst. apply (inv_step_late _ _ _ _ _ Hi Et).
+Qed.
+
+Lemma still_loop_inv exec o : forall ds st st' lft p,
+  inv exec o st -> still_loop exec o ds st = (st', lft, p) -> inv exec o st'.
+Proof.
+  induction ds as [|d r IH]; intros st st' lft p Hi H; cbn [still_loop] in H.
+  - inversion H; subst. exact Hi.
+  - destruct (try_desc exec o (s_rem st) d) as [| | |[pr t|pr|pr|]] eqn:Et.
+    + destruct (still_loop exec o r st) as [[s l] q] eqn:E. inversion H; subst. apply (IH _ _ _ _ Hi E).
+    + destruct (still_loop exec o r st) as [[s l] q] eqn:E. inversion H; subst. apply (IH _ _ _ _ Hi E).
+    + destruct (still_loop exec o r st) as [[s l] q] eqn:E. inversion H; subst. apply (IH _ _ _ _ Hi E).
+    + apply (IH _ _ _ _ (inv_step_ok _ _ _ _ _ _ Hi Et) H).
+    + destruct (still_loop exec o r (mkOst pr (s_tasks st) (s_undecl st) (s_aband st))) as [[s l] q] eqn:E.
+      inversion H; subst. apply (IH _ _ _ _ (inv_step_early _ _ _ _ _ Hi Et) E).
+    + destruct (still_loop exec o r (mkOst pr (s_tasks st) true true)) as [[s l] q] eqn:E.
+      inversion H; subst. apply (IH _ _ _ _ (inv_step_late _ _ _ _ _ Hi Et) E).
+    + inversion H; subst. exact Hi.
+Qed.
+
+(* ================================================================ G. one OFFERS round *)
+
+Definition offer_ok (exec : N * N) (x : offer * list task) : Prop :=
+  Forall (task_base exec (fst x)) (snd x) /\
+  (pvalid (o_ports (fst x)) -> NoDup (all_picked (snd x)) /\ Forall (task_ports (fst x)) (snd x)).
+
+Record ginv (exec : N * N) (ids : list N) (g : gst) : Prop := mkGI {
+  gi_ok : Forall (offer_ok exec) (g_accepts g);
+  gi_used : forall o ts, In (o, ts) (g_accepts g) -> ts <> [] -> ~ In (o_id o) (g_decline g);
+  gi_unused : forall id, In id ids -> ~ In id (g_decline g) ->
+     (exists o ts, In (o, ts) (g_accepts g) /\ o_id o = id /\ ts <> []) \/ In id (g_aband g)
+}.
+
+Lemma ginv_init exec ids s u : ginv exec ids (mkGst s u ids [] []).
+Proof.
+  constructor; cbn.
+  - constructor.
+  - intros o ts [].
+  - intros id H1 H2. contradiction.
+Qed.
+
+Lemma remove_id_In x y l : In y (remove_id x l) <-> In y l /\ y <> x.
+Proof.
+  unfold remove_id. rewrite filter_In. split; intros [H1 H2]; split; try exact H1.
+  - apply negb_true_iff in H2. apply N.eqb_neq in H2. congruence.
+  - apply negb_true_iff. apply N.eqb_neq. congruence.
+Qed.
+
+Lemma inv_offer_ok exec o st : inv exec o st -> offer_ok exec (o, s_tasks st).
+Proof.
+  intros [Hb _ _ Hp]. split; [exact Hb|]. cbn [fst snd]. intro Hv.
+  destruct (Hp Hv) as [_ _ _ Pn Pt]. split; assumption.
+Qed.
+
+(* the effect of one offer goroutine on the round's bookkeeping, given the final loop state *)
+Lemma ginv_after exec ids g o st still' undep :
+  ginv exec ids g -> inv exec o st ->
+  ginv exec ids
+       (mkGst still' undep
+              (if s_undecl st then remove_id (o_id o) (g_decline g) else g_decline g)
+              (g_accepts g ++ [(o, s_tasks st)])
+              (if s_aband st then g_aband g ++ [o_id o] else g_aband g)).
+Proof.
+  intros [Gok Gu Gn] Hi. constructor; cbn [g_accepts g_decline g_aband].
+  - apply Forall_app. split; [exact Gok|]. constructor; [|constructor]. apply inv_offer_ok. exact Hi.
+  - intros o' ts Hin Hne Hd.
+    assert (Hd' : In (o_id o') (g_decline g)).
+    { destruct (s_undecl st); [apply remove_id_In in Hd; apply Hd|exact Hd]. }
+    apply in_app_or in Hin. destruct Hin as [Hin|[Hin|[]]].
+    + apply (Gu o' ts Hin Hne Hd').
+    + inversion Hin; subst o' ts. rewrite (inv_tasks_undecl _ _ _ Hi Hne) in Hd.
+      apply remove_id_In in Hd. destruct Hd as [_ X]. apply X. reflexivity.
+  - intros id Hid Hd.
+    destruct (in_dec N.eq_dec id (g_decline g)) as [Hin|Hnin].
+    + (* it was still to be declined: this goroutine took it out *)
+      destruct (s_undecl st) eqn:Eu; [|contradiction].
+      assert (id = o_id o).
+      { destruct (N.eq_dec id (o_id o)) as [E|E]; [exact E|].
+        exfalso. apply Hd. apply remove_id_In. split; assumption. }
+      subst id. destruct (inv_undecl _ _ _ Hi Eu) as [Ht|Ha].
+      * left. exists o, (s_tasks st). split; [apply in_or_app; right; left; reflexivity|].
+        split; [reflexivity|exact Ht].
+      * right. rewrite Ha. apply in_or_app. right. left. reflexivity.
+    + destruct (Gn id Hid Hnin) as [[o' [ts [A [B C]]]]|Ha].
+      * left. exists o', ts. split; [apply in_or_app; left; exact A|]. split; assumption.
+      * right. destruct (s_aband st); [apply in_or_app; left; exact Ha|exact Ha].
+Qed.
+
+Lemma process_offer_ginv exec ids offers descs g o g' :
+  ginv exec ids g -> process_offer exec offers descs g o = Some g' -> ginv exec ids g'.
+Proof.
+  intros Hg H. unfold process_offer in H.
+  destruct (prematch_loop exec o
+              (filter (fun d => is_pin_to (o_id o) (pin_of offers d)) descs)
+              (mkOst (o_ports o) [] false false)) as [[st1 und] p1] eqn:E1.
+  pose proof (prematch_loop_inv _ _ _ _ _ _ _ (inv_init exec o) E1) as Hi1.
+  destruct p1; [discriminate|].
+  destruct (g_undep g ++ und) as [|u0 ur] eqn:Eu.
+  - destruct (still_loop exec o (rev (g_still g)) st1) as [[s lft] p] eqn:E2.
+    pose proof (still_loop_inv _ _ _ _ _ _ _ Hi1 E2) as Hi2.
+    destruct p; [discriminate|]. inversion H; subst g'. apply ginv_after; assumption.
+  - inversion H; subst g'. apply ginv_after; assumption.
+Qed.
+
+Lemma process_all_ginv exec ids offers descs : forall sched g g',
+  ginv exec ids g -> process_all exec offers descs sched g = Some g' -> ginv exec ids g'.
+Proof.
+  induction sched as [|o r IH]; intros g g' Hg H; cbn [process_all] in H.
+  - inversion H; subst. exact Hg.
+  - destruct (process_offer exec offers descs g o) as [g1|] eqn:E; [|discriminate].
+    apply (IH _ _ (process_offer_ginv _ _ _ _ _ _ _ Hg E) H).
+Qed.
+
+Lemma run_round_ginv exec offers sched descs acc dec ab still und :
+  run_round exec offers sched descs = Done acc dec ab still und ->
+  ginv exec (map o_id offers) (mkGst still und dec acc ab).
+Proof.
+  unfold run_round. destruct descs as [|d0 dr].
+  - intro H. inversion H; subst. apply ginv_init.
+  - set (descs := d0 :: dr).
+    destruct (filter (fun d => is_pin_nowhere (pin_of offers d)) (rev descs)) as [|n0 nr].
+    + destruct (process_all exec offers descs sched
+                  (mkGst (filter (fun d => is_pin_none (pin_of offers d)) descs) []
+                         (map o_id offers) [] [])) as [g|] eqn:E; [|discriminate].
+      intro H. inversion H; subst.
+      pose proof (process_all_ginv _ _ _ _ _ _ _ (ginv_init exec (map o_id offers) _ _) E) as G.
+      destruct g. exact G.
+    + intro H. inversion H; subst. apply ginv_init.
+Qed.
